@@ -8,6 +8,7 @@
      ev(c)                  a resource_added event for a generated resource arrives on context c
      q(blocked)             quiescent point: the set of tasks whose lookup has begun and not ended
      final(c, vals)         objects found under the factory's types in context c at the end
+     static(k, c, got, want)  decorated-lookup variant: the static resource task k's decorated call received / the explicit lookup gives
    Clause names start with the properties they belong to.                                                        *)
 EXTENDS Naturals, Sequences, FiniteSets
 MonInit == [parked |-> {}, gen |-> <<>>, first |-> <<>>, evs |-> <<>>, done |-> <<>>, begun |-> {}, ended |-> {}, ctxOf |-> <<>>,
@@ -45,5 +46,7 @@ MonNext(m, e) ==
          ELSE IF e.c \notin DOMAIN m.first /\ e.vals # <<>> /\ ~Get(m.done, e.c, FALSE) THEN Fail(m, "C02,C04:context-holds-a-generated-object-it-never-asked-for")
          ELSE IF Get(m.done, e.c, FALSE) /\ Get(m.evs, e.c, 0) = 0 THEN Fail(m, "C18:no-event-for-the-generation")
          ELSE m
+    \* (decorated-lookup variant, C19) the static resource a decorated call received next to the generated one, against the explicit lookup
+    [] e.ev = "static" -> IF e.got # e.want THEN Fail(m, "C19:decorated-call-received-the-static-resource-of-another-context") ELSE Hit(m, "static")
     [] OTHER -> m
 =============================================================================
